@@ -267,6 +267,13 @@ func c22Prop(r *ev.Rec) func(c c22Case) ev.Outcome {
 				dup = dup || seen[row] > 1
 			}
 		}
+		listVals := false
+		for _, m := range c.Msgs {
+			for _, v := range m.Vals {
+				listVals = listVals || v.K == "list"
+			}
+		}
+		cl(listVals, "list_values_prefix_related")
 		cl(zero, "has_zero_event_time")
 		cl(late, "has_late_record")
 		cl(retr, "has_retraction")
@@ -276,6 +283,8 @@ func c22Prop(r *ev.Rec) func(c c22Case) ev.Outcome {
 		cl(len(c.Msgs) >= 34, "long_script")
 		cl(st.maxPending >= 32, "32_or_more_records_pending_at_a_watermark")
 		cl(st.maxPending >= 64, "64_or_more_records_pending_at_a_watermark")
+		cl(st.maxPending >= 256, "256_or_more_records_pending_at_a_watermark")
+		cl(st.maxPending >= 512, "512_or_more_records_pending_at_a_watermark")
 		cl(st.splitWhileBig > 0, "watermark_splits_insert_retract_pair_with_32_or_more_pending")
 
 		// harness self-check: the reference algorithm without defects must satisfy the oracle (it is the proposed repair)
@@ -360,8 +369,24 @@ func c22Gen(t *rapid.T) c22Case {
 	// long: a fraction of the scripts keeps tens of records (up to ~100) pending at once: long bursts without a watermark,
 	// a wider event-time window, rare watermarks that cut through the middle of the pending times
 	long := rapid.IntRange(0, 7).Draw(t, "long") == 0
+	// huge: one script in forty keeps several hundred records pending (the wrapper's buffer has internal thresholds)
+	huge := rapid.IntRange(0, 79).Draw(t, "huge") == 37 // a mid-range value: rapid favours the ends of a range
+	if huge {
+		long = true
+	}
 	ncols := rapid.IntRange(1, 2).Draw(t, "ncols")
 	pool := []gen.JV{gen.Int(0), gen.Int(1), gen.Str("a"), gen.Null()}
+	if rapid.IntRange(0, 3).Draw(t, "lists") == 0 {
+		// list values, one a prefix of the other (the wrapper pairs retractions with records by comparing whole rows)
+		li := func(xs ...int64) gen.JV {
+			v := gen.JV{K: "list", L: []gen.JV{}}
+			for _, x := range xs {
+				v.L = append(v.L, gen.Int(x))
+			}
+			return v
+		}
+		pool = []gen.JV{li(), li(1), li(1, 2), li(1, 2, 3), li(1, 3), gen.Int(0), gen.Null()}
+	}
 	maxRows := 3
 	if long {
 		maxRows = 6
@@ -401,6 +426,10 @@ func c22Gen(t *rapid.T) c22Case {
 	if long {
 		n = rapid.IntRange(34, 130).Draw(t, "nlong")
 		wmEvery = rapid.IntRange(4, 40).Draw(t, "wmevery") // a watermark action becomes one only every wmEvery-th time
+	}
+	if huge {
+		n = rapid.IntRange(300, 700).Draw(t, "nhuge")
+		wmEvery = rapid.IntRange(40, 160).Draw(t, "wmeveryhuge")
 	}
 	wmTick := 0
 	for i := 0; i < n; i++ {
@@ -451,7 +480,7 @@ func c22Gen(t *rapid.T) c22Case {
 
 func TestC22(t *testing.T) {
 	r := ev.New("C22", "exploration",
-		"one case in eight is a long script (34-130 messages over 1-6 rows, event-time window 10 s, a watermark only every 4th-40th opportunity) so that 32-100 records are pending at once and watermarks cut between an insert and the later retraction of the same row (counted in the classes); the others: "+
+		"about one case in eighty is a huge script (300-700 messages, a watermark only every 40th-160th opportunity: several hundred records pending at once); a quarter of the cases draw their values from lists that are prefixes of one another ([], [1], [1,2], [1,2,3], [1,3]); one case in eight is a long script (34-130 messages over 1-6 rows, event-time window 10 s, a watermark only every 4th-40th opportunity) so that 32-100 records are pending at once and watermarks cut between an insert and the later retraction of the same row (counted in the classes); the others: "+
 			"rapid changelogs of 0-12 messages over 1-3 distinct rows of 1-2 columns (ints, strings, NULL; rows may coincide, so duplicates are frequent): inserts, retractions of currently present rows only (every prefix valid), "+
 			"non-decreasing watermarks; event times out of order within a window of 5 s above the last watermark, sometimes late (at or below it), sometimes zero, a tenth of the streams entirely untimed; a retraction's time is usually >= its insertion's, sometimes below. "+
 			"Subject: stream.InternallyConsistentOutputStreamWrapper over the scripted source. Oracle (signed bags, written from the statement): watermarks forwarded unchanged; every emitted record is a not-yet-emitted input record received before the watermark being processed (same values, flag, event time); "+
